@@ -23,6 +23,7 @@ verus! {
 //@ include prelude/stdcoll.rs
 //@ include prelude/rc_asref.rs
 //@ include prelude/location_hash.rs
+//@ include prelude/fmt_option.rs
 //@ include units/C11/error_from.rs
 //@ mode contracts-only C15
 //@ include units/C15/error_from_string.rs
